@@ -5,57 +5,17 @@ import GSProofs.Lemmas.MsgQueueAtt3
 namespace GS.MQ
 open GS.Alloc
 
-theorem W.of_out {f : Req → Sub} {u : Sub} {t : Nat} {s s' : State} (o : Out f s s') (hb : ∀ b ∈ s.builders, BFun f b)
-    (h : W f u t s) : W f u t s' := by
-  rcases h with h | h | h
-  · rcases (o.att hb).2 u t h with h' | h'
-    · exact Or.inl h'
-    · exact Or.inr (Or.inr h')
+theorem W.of_out {f : Req → Sub} {u : Sub} {t : Nat} {r : Req} {n0 : Nat} {s s' : State} (o : Out f s s')
+    (hb : ∀ b ∈ s.builders, BFun f b) (h : W u t r n0 s) : W u t r n0 s' := by
+  rcases h with ⟨h, hn⟩ | h | h
+  · rcases (o.att hb).2 u t r h with h' | h'
+    · exact Or.inl ⟨h', Nat.le_trans hn (errCount_mono o.log u)⟩
+    · exact Or.inr (Or.inr ⟨h'.1, Nat.lt_of_le_of_lt hn h'.2⟩)
   · exact Or.inr (Or.inl ((seq_mono o.log u t).1 h))
   · exact Or.inr (Or.inr (h.mono o.closed o.log))
 
 theorem allocStep_out (pick : Pick) (f : Req → Sub) (s : State) (op : Alloc.Op) : Out f s (s.allocStep pick op).1 :=
   Out.same f rfl rfl (allocStep_wcore pick s op) ⟨_, rfl⟩
-
-/-- `AllocateAndBuildMessage` with the request's own subscriber -/
-theorem buildWith_att (pick : Pick) (f : Req → Sub) (s : State) (tx : Tx) (size : Nat) (hf : tx.sub = f tx.req) :
-    ((∀ b ∈ s.builders, BFun f b) → (∀ b ∈ (buildWith pick s tx size).builders, BFun f b) ∧
-      (∀ u t, AttQ u t s → AttQ u t (buildWith pick s tx size) ∨ ErrSeen f u (buildWith pick s tx size))) ∧
-    (∀ r ∈ s.closedStreams, r ∈ (buildWith pick s tx size).closedStreams) ∧
-    (∃ X, (buildWith pick s tx size).log = s.log ++ X) ∧
-    ((∀ w ∈ s.waiters, w.tx.sub = f w.tx.req) → ∀ w ∈ (buildWith pick s tx size).waiters, w.tx.sub = f w.tx.req) := by
-  unfold buildWith
-  simp only
-  have o0 : Out f s ({ s with nextTicket := s.nextTicket + 1 } : State) := Out.same f rfl rfl (WCore.of_eq rfl) ⟨[], by simp⟩
-  split
-  · have o := o0.trans (buildMessage_out pick f _ s.nextTicket tx 0 hf)
-    exact ⟨o.att, o.closed, o.log, o.wcore.wfun⟩
-  · have o1 := o0.trans (allocStep_out pick f ({ s with nextTicket := s.nextTicket + 1 } : State) (.alloc s.peer size s.nextTicket))
-    split
-    · have o := o1.trans (buildMessage_out pick f _ s.nextTicket tx size hf)
-      exact ⟨o.att, o.closed, o.log, o.wcore.wfun⟩
-    · refine ⟨o1.att, o1.closed, o1.log, ?_⟩
-      intro hw w hw'
-      rcases List.mem_append.mp hw' with h | h
-      · exact o1.wcore.wfun hw w h
-      · simp at h; subst h; exact hf
-
-theorem wake_att (pick : Pick) (f : Req → Sub) (s : State) (t0 : Nat) (hw : ∀ w ∈ s.waiters, w.tx.sub = f w.tx.req) :
-    Out f s (s.wake pick t0) ∨
-    (∃ s1 : State, s1.builders = s.builders ∧ s1.closedStreams = s.closedStreams ∧ s1.log = s.log ∧
-      (∀ w ∈ s1.waiters, w ∈ s.waiters) ∧ Out f s1 (s.wake pick t0)) := by
-  unfold State.wake
-  cases hf : s.waiters.find? (fun w => w.ticket == t0 && w.answer.isSome) with
-  | none => exact Or.inl (Out.refl f s)
-  | some w =>
-    right
-    have hwm : w ∈ s.waiters := List.mem_of_find?_eq_some hf
-    refine ⟨({ s with waiters := s.waiters.filter (·.ticket != w.ticket) } : State), rfl, rfl, rfl,
-      fun x hx => (List.mem_filter.mp hx).1, ?_⟩
-    simp only
-    split
-    · exact buildMessage_out pick f _ w.ticket w.tx w.size (hw w hwm)
-    · exact Out.same f rfl rfl (WCore.of_eq rfl) ⟨_, rfl⟩
 
 theorem mem_foldl_insertSub (subs init : List Sub) (u : Sub) :
     u ∈ subs.foldl insertSub init ↔ u ∈ init ∨ u ∈ subs := by
